@@ -31,3 +31,9 @@ package shared
 //@   ensures result == -1 || (0 <= result && result < len(s) && s[result] == c)
 //@   ensures result == -1 ==> (forall k int :: 0 <= k && k < len(s) ==> s[k] != c)
 //@   ensures result >= 0 ==> (forall k int :: 0 <= k && k < result ==> s[k] != c)
+
+// utf8.EncodeRune writes 1 to 4 bytes into p
+//@ func unicode/utf8.EncodeRune
+//@   trusted
+//@   modifies E|uint8
+//@   ensures 1 <= result && result <= 4
